@@ -220,6 +220,12 @@ def run(ctx):
         detail = ''
         rets = [(bb, j, st) for bb, j, st in B.stmts() if st['k'] == '=' and st['pl']['l'] == 0 and not st['pl'].get('p')]
         defs0 = B.defs().get(0, [])
+        # through plain copies (an inlined helper hands its result over by a move)
+        for _ in range(4):
+            if len(defs0) == 1 and defs0[0][0] == 's' and defs0[0][3]['rv']['k'] == 'use' and defs0[0][3]['rv']['op'].get('k') in ('cp', 'mv') and not defs0[0][3]['rv']['op']['pl'].get('p'):
+                defs0 = B.defs().get(defs0[0][3]['rv']['op']['pl']['l'], [])
+                continue
+            break
         if len(defs0) == 1 and defs0[0][0] == 't':
             t = defs0[0][3]
             if any(n.endswith('PartialEq::eq') or '::eq' in n for n in callee_names(t)) and len(t['args']) == 2:
